@@ -10,6 +10,7 @@ import (
 	"github.com/metrico/qryn/reader/logql/logql_transpiler_v2/shared"
 	"github.com/metrico/qryn/reader/model"
 	"github.com/metrico/qryn/reader/plugins"
+	"github.com/metrico/qryn/reader/promql/transpiler"
 	"github.com/metrico/qryn/reader/utils/dbVersion"
 	"github.com/metrico/qryn/reader/utils/logger"
 	sql "github.com/metrico/qryn/reader/utils/sql_select"
@@ -150,17 +151,41 @@ func (q *QueryLabelsService) Labels(ctx context.Context, startMs int64, endMs in
 	return q.GenericLabelReq(ctx, query)
 }
 
-func (q *QueryLabelsService) PromValues(ctx context.Context, label string, match []string, startMs int64, endMs int64,
-	labelsType uint16) (chan string, error) {
-	lMatchers := make([]string, len(match))
-	var err error
+// promFingerprints plans the label index query of the match[] selectors of a Prometheus API call with the
+// matcher semantics of PromQL (regular expressions match the whole value, a label the series lacks is the
+// empty value): the same query the PromQL storage adapter selects its series with. nil without selectors.
+func (q *QueryLabelsService) promFingerprints(match []string) (shared.SQLRequestPlanner, error) {
+	if len(match) == 0 {
+		return nil, nil
+	}
+	selects := make([]shared.SQLRequestPlanner, len(match))
 	for i, m := range match {
-		lMatchers[i], err = q.Prom2LogqlMatch(m)
+		matchers, err := parser.ParseMetricSelector(m)
 		if err != nil {
 			return nil, err
 		}
+		selects[i] = &transpiler.StreamSelectPlanner{Matchers: matchers}
 	}
-	return q.Values(ctx, label, lMatchers, startMs, endMs, labelsType)
+	return &clickhouse_planner.MultiStreamSelectPlanner{Mains: selects}, nil
+}
+
+func (q *QueryLabelsService) PromValues(ctx context.Context, label string, match []string, startMs int64, endMs int64,
+	labelsType uint16) (chan string, error) {
+	fingerprints, err := q.promFingerprints(match)
+	if err != nil {
+		return nil, err
+	}
+	return q.values(ctx, label, fingerprints, startMs, endMs, labelsType)
+}
+
+// PromSeries returns the label sets of the series selected by one of the match[] selectors.
+func (q *QueryLabelsService) PromSeries(ctx context.Context, match []string, startMs int64, endMs int64,
+	labelsType uint16) (chan string, error) {
+	fingerprints, err := q.promFingerprints(match)
+	if err != nil {
+		return nil, err
+	}
+	return q.series(ctx, fingerprints, startMs, endMs, labelsType)
 }
 
 func (q *QueryLabelsService) Prom2LogqlMatch(match string) (string, error) {
@@ -191,6 +216,21 @@ func (q *QueryLabelsService) Prom2LogqlMatch(match string) (string, error) {
 
 func (q *QueryLabelsService) Values(ctx context.Context, label string, match []string, startMs int64, endMs int64,
 	labelsType uint16) (chan string, error) {
+	var fingerprints shared.SQLRequestPlanner
+	//TODO: add pluggable extension
+	if len(match) > 0 && label != "" {
+		var err error
+		fingerprints, err = q.getMultiMatchFingerprintsPlanner(match)
+		if err != nil {
+			return nil, err
+		}
+	}
+	return q.values(ctx, label, fingerprints, startMs, endMs, labelsType)
+}
+
+// values streams the values of a label among the series the fingerprints planner selects (all series when nil)
+func (q *QueryLabelsService) values(ctx context.Context, label string, fingerprints shared.SQLRequestPlanner,
+	startMs int64, endMs int64, labelsType uint16) (chan string, error) {
 	conn, err := q.Session.GetDB(ctx)
 	if err != nil {
 		return nil, err
@@ -201,21 +241,9 @@ func (q *QueryLabelsService) Values(ctx context.Context, label string, match []s
 		res <- "{\"status\": \"success\",\"data\": []}"
 		return res, nil
 	}
-	if err != nil {
-		return nil, err
-	}
 
-	var planner shared.SQLRequestPlanner
+	planner := clickhouse_planner.NewValuesPlanner(fingerprints, label)
 	tsGinTableName := tables.GetTableName("time_series_gin")
-	//TODO: add pluggable extension
-	if len(match) > 0 {
-		planner, err = q.getMultiMatchValuesPlanner(match, label)
-		if err != nil {
-			return nil, err
-		}
-	} else {
-		planner = clickhouse_planner.NewValuesPlanner(nil, label)
-	}
 	if conn.Config.ClusterName != "" {
 		tsGinTableName += "_dist"
 	}
@@ -253,7 +281,7 @@ func (q *QueryLabelsService) Values(ctx context.Context, label string, match []s
 	return q.GenericLabelReq(ctx, strQuery)
 }
 
-func (q *QueryLabelsService) getMultiMatchValuesPlanner(match []string, key string) (shared.SQLRequestPlanner, error) {
+func (q *QueryLabelsService) getMultiMatchFingerprintsPlanner(match []string) (shared.SQLRequestPlanner, error) {
 	matchScripts := make([]*logql_parser.LogQLScript, len(match))
 	var err error
 	for i, m := range match {
@@ -269,9 +297,7 @@ func (q *QueryLabelsService) getMultiMatchValuesPlanner(match []string, key stri
 			return nil, err
 		}
 	}
-	var planner shared.SQLRequestPlanner = &clickhouse_planner.MultiStreamSelectPlanner{selects}
-	planner = clickhouse_planner.NewValuesPlanner(planner, key)
-	return planner, nil
+	return &clickhouse_planner.MultiStreamSelectPlanner{selects}, nil
 }
 
 func (q *QueryLabelsService) Series(ctx context.Context, requests []string, startMs int64, endMs int64,
@@ -284,14 +310,29 @@ func (q *QueryLabelsService) Series(ctx context.Context, requests []string, star
 		}()
 		return res, nil
 	}
+	fingerprints, err := q.querySeries(requests)
+	if err != nil {
+		return nil, err
+	}
+	return q.series(ctx, fingerprints, startMs, endMs, labelsType)
+}
+
+// series streams the label sets of the series the fingerprints planner selects
+func (q *QueryLabelsService) series(ctx context.Context, fingerprints shared.SQLRequestPlanner, startMs int64,
+	endMs int64, labelsType uint16) (chan string, error) {
+	res := make(chan string)
+	if fingerprints == nil {
+		go func() {
+			defer close(res)
+			res <- `{"status":"success", "data":[]}`
+		}()
+		return res, nil
+	}
 	conn, err := q.Session.GetDB(ctx)
 	if err != nil {
 		return nil, err
 	}
-	planner, err := q.querySeries(requests)
-	if err != nil {
-		return nil, err
-	}
+	planner := clickhouse_planner.NewSeriesPlanner(fingerprints)
 
 	versionInfo, err := dbVersion.GetVersionInfo(ctx, conn.Config.ClusterName != "", conn.Session)
 	if err != nil {
@@ -360,7 +401,5 @@ func (q *QueryLabelsService) querySeries(requests []string) (shared.SQLRequestPl
 			return nil, err
 		}
 	}
-	var planner shared.SQLRequestPlanner = &clickhouse_planner.MultiStreamSelectPlanner{Mains: fpPlanners}
-	planner = clickhouse_planner.NewSeriesPlanner(planner)
-	return planner, nil
+	return &clickhouse_planner.MultiStreamSelectPlanner{Mains: fpPlanners}, nil
 }
